@@ -155,18 +155,25 @@ func ZZ_C19_growth() {
 // depend on the number of implementers; nesting depth costs linearly; executing
 // plans only the runtime types actually met.
 func ZZ_C19_abstract() {
+	useUnion := zzChoice("abstract", 2) == 1
 	mk := func(nimpl int) Schema {
 		node := NewInterface(InterfaceConfig{Name: "Node", Fields: Fields{"id": &Field{Type: String}}})
 		var objs []*Object
+		var abstract Output = node
+		var uni *Union
 		fields := FieldsThunk(func() Fields {
 			return Fields{"id": &Field{Type: String, Resolve: func(p ResolveParams) (interface{}, error) { return "i", nil }},
-				"n": &Field{Type: node, Resolve: func(p ResolveParams) (interface{}, error) { return 1, nil }}}
+				"n": &Field{Type: abstract, Resolve: func(p ResolveParams) (interface{}, error) { return 1, nil }}}
 		})
 		for i := 0; i < nimpl; i++ {
 			objs = append(objs, NewObject(ObjectConfig{Name: "Impl" + zzItoa(i), Fields: fields, Interfaces: []*Interface{node}}))
 		}
 		node.ResolveType = func(p ResolveTypeParams) *Object { return objs[0] }
-		q := NewObject(ObjectConfig{Name: "Query", Fields: Fields{"n": &Field{Type: node, Resolve: func(p ResolveParams) (interface{}, error) { return 1, nil }}}})
+		if useUnion {
+			uni = NewUnion(UnionConfig{Name: "U", Types: objs, ResolveType: func(p ResolveTypeParams) *Object { return objs[0] }})
+			abstract = uni
+		}
+		q := NewObject(ObjectConfig{Name: "Query", Fields: Fields{"n": &Field{Type: abstract, Resolve: func(p ResolveParams) (interface{}, error) { return 1, nil }}}})
 		var types []Type
 		for _, o := range objs {
 			types = append(types, o)
@@ -180,10 +187,17 @@ func ZZ_C19_abstract() {
 	depthDoc := func(d int) string {
 		text := "{ "
 		for i := 0; i < d; i++ {
-			text += "n{ "
+			if useUnion {
+				text += "n{ ... on Impl0{ "
+			} else {
+				text += "n{ "
+			}
 		}
 		text += "id"
 		for i := 0; i < d; i++ {
+			if useUnion {
+				text += " }"
+			}
 			text += " }"
 		}
 		return text + " }"
@@ -193,7 +207,7 @@ func ZZ_C19_abstract() {
 		return zzCost(func() { PlanQuery(s, doc, "") })
 	}
 	s1, s6 := mk(1), mk(6)
-	zzAssert(planCost(&s1, depthDoc(4)) == planCost(&s6, depthDoc(4)), "planning cost depends on the number of implementers")
+	zzAssert(planCost(&s1, depthDoc(4)) == planCost(&s6, depthDoc(4)), "planning cost depends on the number of possible types of an abstract field")
 	c2, c4, c6 := planCost(&s6, depthDoc(2)), planCost(&s6, depthDoc(4)), planCost(&s6, depthDoc(6))
 	zzAssert(c6-c4 == c4-c2, "planning cost is not linear in the nesting depth through abstract fields")
 	// executing plans only the runtime type actually met
@@ -206,6 +220,9 @@ func ZZ_C19_abstract() {
 		zzAssert(len(fp.abstractAlternatives) == 1, "execution planned runtime types that were never met")
 		var next *fieldPlan
 		for _, sub := range fp.abstractAlternatives {
+			if sub == nil {
+				continue
+			}
 			for _, f := range sub.fields {
 				if f.fieldName == "n" {
 					next = f
